@@ -218,6 +218,21 @@ Section Refine.
   Lemma mb_covers : forall v, In v vs -> 6 * v_sigma v < IZR (min_buffer Rops c) * v_width v.
   Proof. intros v Hin. apply min_buffer_covers; [exact Hsig|exact Hvars|exact Hin]. Qed.
 
+  Lemma not_near_far g x : c_use_grids c = true -> All2 bound_ok vs g -> Forall gvar_ok vs ->
+    length g = length vs -> length x = length vs ->
+    near_edge Rops c g x = false -> forall w it, Far g (mkHill it w x).
+  Proof.
+    intros G Hb Hgv Hlg Hlx Hn w it y Hay Hout. cbn [h_c].
+    unfold near_edge in Hn. cbn [nltb nofZ Rops] in Hn. apply Rltb_false in Hn.
+    pose proof (bin_dist_far (off_margin Rops c) vs g x _ Hlg Hlx Hn) as Hf.
+    destruct vs as [|v0 l0] eqn:Evs.
+    - destruct g; [|discriminate]. destruct y; [|contradiction]. cbn in Hout. discriminate.
+    - rewrite <- Evs in *.
+      apply (far_outside_gen (off_margin Rops c) vs g y x Hvars Hgv Hb Hay Hf); [| |exact Hout].
+      + apply (margin_pos c v0 Hsig Hvars). rewrite Evs. left. reflexivity.
+      + intros v Hin. apply margin_covers; [exact Hsig|exact Hvars|exact Hin].
+  Qed.
+
   Lemma expand_inv m s x : Inv m s -> adm c g0 x -> Inv (update_grid_params Rops c m x) (spec_expand c s x).
   Proof.
     intros HI Ha. pose proof HI as HI0. destruct HI as [Hnew Hold Hsub Hgeom Hgrel He Hg Hoo Hon Hng Hcl].
@@ -246,11 +261,23 @@ Section Refine.
       + rewrite (Hg _ _ Eo Hk), (R1 eq_refl). reflexivity.
       + rewrite Fsum_zero; [cbn; lra|]. intros h Hin. apply Fk_far. apply (R2 eq_refl).
         apply (Hcl G). unfold s_all. apply in_or_app. left. exact Hin.
-    - intros _. apply (Dropped_mono (Far (s_geom s))); [|apply Hoo; exact G].
-      intros h. apply (Far_step _ _ h Hgv Hb Hs).
-    - intros _. apply (Dropped_mono (Far (s_geom s))); [|apply Hon; exact G].
-      intros h. apply (Far_step _ _ h Hgv Hb Hs).
-    - intros G'. congruence.
+    - intros _. apply (Dropped_trans _ _ (st_off_old m)).
+      + apply (Dropped_mono (Far (s_geom s))); [|apply Hoo; exact G]. intros h. apply (Far_step _ _ h Hgv Hb Hs).
+      + apply Dropped_filter. intros h Hin Hn. destruct h as [it w cx]. unfold near_hill in Hn. cbn [h_c] in Hn.
+        assert (Hb' : All2 bound_ok vs g') by (apply (All2_bound_gstep vs _ _ Hb Hs)).
+        assert (Hl' : length g' = length vs) by (symmetry; apply (All2_length _ _ _ Hb')).
+        apply (not_near_far g' cx G Hb' Hgv Hl'); [|exact Hn].
+        destruct (All3_length _ _ _ _ (Hcl G (mkHill it w cx) ltac:(unfold s_all; apply in_or_app; left; apply (Dropped_In _ _ _ (Hoo G)); exact Hin))) as [_ Hlc].
+        symmetry. exact Hlc.
+    - intros _. apply (Dropped_trans _ _ (st_off_new m)).
+      + apply (Dropped_mono (Far (s_geom s))); [|apply Hon; exact G]. intros h. apply (Far_step _ _ h Hgv Hb Hs).
+      + apply Dropped_filter. intros h Hin Hn. destruct h as [it w cx]. unfold near_hill in Hn. cbn [h_c] in Hn.
+        assert (Hb' : All2 bound_ok vs g') by (apply (All2_bound_gstep vs _ _ Hb Hs)).
+        assert (Hl' : length g' = length vs) by (symmetry; apply (All2_length _ _ _ Hb')).
+        apply (not_near_far g' cx G Hb' Hgv Hl'); [|exact Hn].
+        destruct (All3_length _ _ _ _ (Hcl G (mkHill it w cx) ltac:(unfold s_all; apply in_or_app; right; apply (Dropped_In _ _ _ (Hon G)); exact Hin))) as [_ Hlc].
+        symmetry. exact Hlc.
+    - intros G'. rewrite G in G'. discriminate G'.
     - intros _ h Hin. apply (All3_clear_gstep c vs (s_geom s) g' (h_c h) Hvars Hs). apply (Hcl G h Hin).
   Qed.
 
@@ -258,20 +285,6 @@ Section Refine.
   Lemma eligible_deposit i : deposit_now c i = eligible c i.
   Proof. reflexivity. Qed.
 
-  Lemma not_near_far g x : c_use_grids c = true -> All2 bound_ok vs g -> Forall gvar_ok vs ->
-    length g = length vs -> length x = length vs ->
-    near_edge Rops c g x = false -> forall w it, Far g (mkHill it w x).
-  Proof.
-    intros G Hb Hgv Hlg Hlx Hn w it y Hay Hout. cbn [h_c].
-    unfold near_edge in Hn. cbn [nltb nofZ Rops] in Hn. apply Rltb_false in Hn.
-    pose proof (bin_dist_far (off_margin Rops c) vs g x _ Hlg Hlx Hn) as Hf.
-    destruct vs as [|v0 l0] eqn:Evs.
-    - destruct g; [|discriminate]. destruct y; [|contradiction]. cbn in Hout. discriminate.
-    - rewrite <- Evs in *.
-      apply (far_outside_gen (off_margin Rops c) vs g y x Hvars Hgv Hb Hay Hf); [| |exact Hout].
-      + apply (margin_pos c v0 Hsig Hvars). rewrite Evs. left. reflexivity.
-      + intros v Hin. apply margin_covers; [exact Hsig|exact Hvars|exact Hin].
-  Qed.
 
   Lemma eb_scale_R i : eb_scale Rops c i = eb_factor c i.
   Proof.
